@@ -383,3 +383,23 @@ MUTANTS += [
     dict(id='c17-fewer-coefs-returned', props=['C17'], file=FB,
          old="            return coefs, info\n        return coefs\n", new="            return coefs[:self.n], info\n        return coefs[:self.n]\n"),
 ]
+
+MUTANTS += [
+    dict(id='c18-sign-swapped', props=['C18'], file=LIM,
+         old="        sign = dict(forward=1, above=1, backward=-1, below=-1)[self.method]", new="        sign = dict(forward=1, above=-1, backward=-1, below=1)[self.method]"),
+    dict(id='c18-order-terms', props=['C18'], file=LIM,
+         old="        self._set_richardson_rule(self.step.step_ratio, self.order + 1)", new="        self._set_richardson_rule(self.step.step_ratio ** 2, self.order + 1)"),
+    dict(id='c18-put-whole-array', props=['C18'], file=LIM,
+         old="            np.put(f_z, k, lim_fz)\n", new="            f_z = f_z + 0 * lim_fz.ravel()[0] if f_z.size == 1 else (f_z * (1 + 1e-15)); np.put(f_z, k, lim_fz)\n"),
+    dict(id='c18-residue-power', props=['C18'], file=LIM,
+         old="        return self.fun(z + d_z, *args, **kwds) * (d_z ** self.pole_order)", new="        return self.fun(z + d_z, *args, **kwds) * (d_z ** (self.pole_order - (self.pole_order == 3)))"),
+    dict(id='c18-only-first-nan', props=['C18'], file=LIM,
+         old="        k = np.flatnonzero(np.isnan(f_z))\n", new="        k = np.flatnonzero(np.isnan(f_z))[:3]\n"),
+    dict(id='c18-spiral-dtheta-ignored', props=['C18', 'C10'], file=LIM,
+         old="        if dtheta != 0:\n            _step_ratio = np.exp(1j * dtheta) * _step_ratio  # a spiral path", new="        if dtheta != 0 and False:\n            _step_ratio = np.exp(1j * dtheta) * _step_ratio  # a spiral path"),
+    dict(id='c18-error-estimate-dropped', props=['C18'], file=LIM,
+         old="                np.put(err, k, info1.error_estimate)", new="                np.put(err, k, info1.error_estimate * 0)"),
+    dict(id='c18-undo-f1', props=['C18', 'C17', 'C01'], file=LIM,
+         old="            if np.iscomplexobj(der):  # percentile does not accept complex input\n                p25, median, p75 = (percentile(der.real, [25, 50, 75], axis=0)\n                                    + 1j * percentile(der.imag, [25, 50, 75], axis=0))\n            else:\n                p25, median, p75 = percentile(der, [25, 50, 75], axis=0)",
+         new="            p25, median, p75 = percentile(der, [25, 50, 75], axis=0)"),
+]
